@@ -28,4 +28,8 @@ EXEMPT = {
     ('T1', 'ExprNodes.TypeofNode.operand'): _T1 + 'typeof() never evaluates its operand; only its type is analysed',
     ('T1', 'ExprNodes.PyMethodCallNode.function_obj'): _T1 + 'alias of function.obj created during code generation',
     ('T1', 'UtilNodes.ResultRefNode.expression'): _T1 + 'ResultRefNode refers to an expression owned by the enclosing LetNode/EvalWithTempExprNode',
+    ('V1h', 'Optimize.OptimizeBuiltinCalls._handle_simple_method_float___div__'):
+        "'__div__' is the name the dispatcher uses for '/' without `from __future__ import division` (language_level 2); not a Python 3 method name but reachable",
+    ('I4', 'Builtin:__Pyx_PyObject_Append:__Pyx_PyObject_Append(OO)->O:ret'):
+        'legacy namespace entry for the internal name; not reachable from Python source except by spelling the internal helper name; the real list.append optimisation uses PyObject_Append_func_type (int return)',
 }
